@@ -58,6 +58,7 @@ func init() {
 		"strings.TrimSpace": intrStrFunc("strings.TrimSpace"),
 		"hash/crc32.ChecksumIEEE": intrCRC,
 		"time.Now":         intrHavocResult,
+		"encoding/binary.Read": intrBinaryRead,
 		"time.Since":       intrHavocResult,
 		"runtime.GOMAXPROCS": intrHavocResult,
 	}
@@ -73,7 +74,7 @@ func intrNewError(vc *VC, fr *Frame, st *State, args []Val, c *ssa.CallCommon, p
 func intrFreshString(vc *VC, fr *Frame, st *State, args []Val, c *ssa.CallCommon, pos token.Position) Val {
 	vc.declStr()
 	s := vc.sc.fresh("sprintf", sortStr)
-	vc.sc.assert(and(sx("bvsle", i64(0), sx("str.len", s)), sx("bvsle", sx("str.len", s), i64(1<<40))))
+	vc.sc.assert(and(sx("bvsle", i64(0), sx("s.len", s)), sx("bvsle", sx("s.len", s), i64(1<<40))))
 	return Val{K: KScalar, T: types.Typ[types.String], S: s}
 }
 
@@ -87,7 +88,7 @@ func intrStrFunc(name string) intrinsic {
 		fn := quote(name)
 		vc.sc.declareFun(fn, []string{sortStr}, sortStr)
 		r := sx(fn, args[0].S)
-		vc.sc.assert(and(sx("bvsle", i64(0), sx("str.len", r)), sx("bvsle", sx("str.len", r), i64(1<<40))))
+		vc.sc.assert(and(sx("bvsle", i64(0), sx("s.len", r)), sx("bvsle", sx("s.len", r), i64(1<<40))))
 		return Val{K: KScalar, T: types.Typ[types.String], S: r}
 	}
 }
@@ -226,11 +227,16 @@ func packResults(sig *types.Signature, res []Val) Val {
 }
 
 // canInline: loop-free bodies (or loops that carry invariants in a contract marked inline).
+var inlinePkgs = map[string]bool{"encoding/binary": true, "bytes": true, "math": true, "math/bits": true, "sort": true, "strings": true, "errors": true, "unicode/utf8": true}
+
 func (vc *VC) canInline(fn *ssa.Function) bool {
 	if v, ok := vc.eng.inlineOK[fn]; ok {
 		return v
 	}
 	ok := true
+	if p := pkgOf(fn); p != nil && !strings.HasPrefix(p.Path(), modPath) && !inlinePkgs[p.Path()] {
+		ok = false
+	}
 	loops := findLoops(fn)
 	if len(loops) > 0 {
 		con := vc.eng.cs.Funcs[funcKey(fn)]
@@ -457,6 +463,26 @@ func (vc *VC) havocModifies(st *State, env *Env, callee *ssa.Function, m string)
 	case m == "*":
 		vc.havocAllHeap(st)
 		return
+	case strings.HasPrefix(m, "*\\"):
+		// everything may change except the contents of pre-existing objects in the named heap variables
+		var keep []string
+		for _, k := range strings.Split(m[2:], "\\") {
+			keep = append(keep, strings.TrimSpace(k))
+		}
+		type saved struct{ name, sort, term string }
+		var olds []saved
+		for _, k := range keep {
+			if srt, ok := vc.heapSorts[k]; ok {
+				olds = append(olds, saved{k, srt, vc.heapGet(st, k, srt)})
+			}
+		}
+		oldNext := st.next
+		vc.havocAllHeap(st)
+		for _, o := range olds {
+			nh := vc.heapGet(st, o.name, o.sort)
+			vc.sc.assert(fmt.Sprintf("(forall ((r!q Int)) (! (=> (< r!q %s) (= (select %s r!q) (select %s r!q))) :pattern ((select %s r!q))))", oldNext, nh, o.term, nh))
+		}
+		return
 	case strings.HasPrefix(m, "ghost "):
 		g := strings.TrimSpace(m[6:])
 		if old, ok := st.ghost[g]; ok {
@@ -577,4 +603,83 @@ func singleUse(v ssa.Value) bool {
 		n++
 	}
 	return n == 1
+}
+
+// binary.Read(r, order, &x) for a *bytes.Buffer reader and a pointer to a fixed-size integer:
+// trusted model of the library's fast path (io.ReadFull over Buffer.Read).
+//   avail == 0      -> err != nil (io.EOF), nothing consumed, x unchanged
+//   0 < avail < n   -> err != nil (io.ErrUnexpectedEOF), buffer drained, x unchanged
+//   avail >= n      -> x = decode(buf[off:off+n]), off += n, err == nil
+func intrBinaryRead(vc *VC, fr *Frame, st *State, args []Val, c *ssa.CallCommon, pos token.Position) Val {
+	errT := c.Signature().Results().At(0).Type()
+	fallback := func(why string) Val {
+		vc.note("binary.Read not modelled here (%s): heap havocked", why)
+		vc.havocAllHeap(st)
+		v, _ := vc.symbolic(errT, "err")
+		vc.assume(st, vc.wf(st, v))
+		return v
+	}
+	r, order, data := args[0], args[1], args[2]
+	if r.K != KIface || data.K != KIface {
+		return fallback("non-interface arguments")
+	}
+	rt, ok := vc.tagTypes[r.If[0]]
+	if !ok || typeKey(rt) != "*bytes.Buffer" {
+		return fallback("reader is not a known *bytes.Buffer")
+	}
+	dt, ok := vc.tagTypes[data.If[0]]
+	if !ok {
+		return fallback("unknown data type")
+	}
+	pt, ok := dt.Underlying().(*types.Pointer)
+	if !ok {
+		return fallback("data is not a pointer")
+	}
+	w, _, isInt := isIntType(pt.Elem())
+	if !isInt {
+		return fallback("data does not point to a fixed-size integer")
+	}
+	ot, ok := vc.tagTypes[order.If[0]]
+	little := ok && strings.HasSuffix(typeKey(ot), "littleEndian")
+	big := ok && strings.HasSuffix(typeKey(ot), "bigEndian")
+	if !little && !big {
+		return fallback("unknown byte order")
+	}
+	bufT := rt.Underlying().(*types.Pointer).Elem()
+	bl := &Loc{Kind: locObj, Ref: r.If[1], Base: bufT}
+	bi, ok1 := fieldIndex(bufT, "buf")
+	oi, ok2 := fieldIndex(bufT, "off")
+	if !ok1 || !ok2 {
+		return fallback("bytes.Buffer layout")
+	}
+	buf := vc.load(st, bl.extend(pathElem{Field: bi}))
+	off := vc.load(st, bl.extend(pathElem{Field: oi}))
+	vc.assume(st, vc.wf(st, buf))
+	n := i64(int64(w / 8))
+	avail := vc.sc.define("avail", sortIdx, bvSub(buf.Sl[2], off.S))
+	vc.assume(st, and(sx("bvsle", i64(0), off.S), sx("bvsle", off.S, buf.Sl[2])))
+	okc := vc.sc.define("readok", sortBool, sx("bvsge", avail, n))
+	h := vc.byteHeap(st)
+	var bs []string
+	for k := 0; k < w/8; k++ {
+		bs = append(bs, sel(sel(h, buf.Sl[0]), bvAdd(buf.Sl[1], bvAdd(off.S, i64(int64(k))))))
+	}
+	if little {
+		for l, rr := 0, len(bs)-1; l < rr; l, rr = l+1, rr-1 {
+			bs[l], bs[rr] = bs[rr], bs[l]
+		}
+	}
+	val := bs[0]
+	if len(bs) > 1 {
+		val = sx("concat", bs...)
+	}
+	dl := &Loc{Kind: locObj, Ref: data.If[1], Base: pt.Elem()}
+	old := vc.load(st, dl)
+	vc.storeTo(st, dl, Val{K: KScalar, T: pt.Elem(), S: ite(okc, val, old.S)})
+	newOff := ite(okc, bvAdd(off.S, n), buf.Sl[2])
+	vc.storeTo(st, bl.extend(pathElem{Field: oi}), Val{K: KScalar, T: off.T, S: newOff})
+	etag := vc.sc.fresh("errtag", sortRef)
+	vc.sc.assert(sx(">", etag, "0"))
+	eref := vc.alloc(st, "err")
+	return Val{K: KIface, T: errT, If: [2]string{ite(okc, "0", etag), ite(okc, "0", eref)}}
 }
